@@ -394,9 +394,25 @@ Example failed_save_creates_key_file :
              sv_log w' = [sa "key"] /\ lookup w' (sa "dest") = Some (hx "01").
 Proof. eexists. split; [vm_compute; reflexivity|]. split; vm_compute; reflexivity. Qed.
 
+(* a formatter/decoder pair satisfying the law of load_after_save, and the theorem's premise *)
+Definition ex_enc : formatter := fun t => match t with PDict N0 [] => Ok (hx "7b7d") | _ => Err EType end.
+Definition ex_dec : bytes -> res pyval := fun b => if bytes_eqb b (hx "7b7d") then Ok (PDict 0%N []) else Err EValue.
 Example load_after_save_ex :
-  let enc := fun t : pyval => match t with PDict _ [] => Ok (hx "7b7d") | _ => Err EType end in
-  let dec := fun b : bytes => if bytes_eqb b (hx "7b7d") then Ok (PDict 0%N []) else Err EValue in
-  exists w', save (sa "h") ex_world [] (sa "dest") (Some enc) = (w', Ok tt) /\
-             load (sa "h") w' (sa "dest") (Some dec) = Ok (PDict 0%N []).
-Proof. eexists. split; vm_compute; reflexivity. Qed.
+  (forall t b, ex_enc t = Ok b -> ex_dec b = Ok t) /\
+  exists w', save (sa "h") ex_world [] (sa "dest") (Some ex_enc) = (w', Ok tt) /\
+             load (sa "h") w' (sa "dest") (Some ex_dec) = Ok (PDict 0%N []).
+Proof.
+  split.
+  - intros t b H. destruct t; try discriminate. destruct tg; try discriminate. destruct d; try discriminate.
+    inversion H; subst. reflexivity.
+  - eexists. split; vm_compute; reflexivity.
+Qed.
+
+(* premises of save_writes_exactly_serialisation / save_fails_as_serialisation *)
+Example save_writes_exactly_serialisation_ex :
+  exists w1, dumps (sa "h") ex_world [FPlain (sa "a") (Ok (PInt 1))] (Some ex_fmt) = (w1, Ok (hx "7b7d")) /\
+             expanduser (sa "h") (sa "~/dest") = Ok (sa "h/dest") /\ mem_path (sa "h/dest") (sv_nowrite w1) = false.
+Proof. eexists. split; [vm_compute; reflexivity|]. split; vm_compute; reflexivity. Qed.
+Example save_fails_as_serialisation_ex :
+  dumps (sa "h") ex_world ex_cfg (Some ex_fmt) = (ex_world, Err (EValidation (sa "b"))).
+Proof. vm_compute. reflexivity. Qed.
